@@ -260,6 +260,13 @@ def register(I):
     def into(I, st, args, info):
         v = args[0]
         dt = _interp.short_type(info.dest_type() or "")
+        if dt == "char" or (info.path.qself or "").strip() == "char":
+            # char::from(u8) / u32::from(char)...: same scalar, widened to the 32-bit character domain
+            if isinstance(v, int) or not is_sym(v):
+                return v
+            return z3.ZeroExt(32 - v.size(), v) if v.size() < 32 else v
+        if dt in _interp.INT_TYPES and is_sym(v) and z3.is_bv(v) and v.size() < _interp.INT_TYPES[dt]:
+            return z3.ZeroExt(_interp.INT_TYPES[dt] - v.size(), v)
         if info.path.last() == "into" and info.path.qself and dt:
             src = _interp.short_type(info.path.qself)
             r = I.P.resolve_fn(_interp.parse_path("<%s as From<%s>>::from" % (dt, src)), handwritten_only=True)
@@ -276,6 +283,8 @@ def register(I):
     @reg("ToString::to_string")
     def to_string(I, st, args, info):
         v = deref_all(I, args[0], st)
+        if _interp.short_type(info.path.qself or "").strip() == "char":
+            return StringV([v])
         return fmt_display(I, v, st, info)
 
     @reg("Default::default")
@@ -519,6 +528,59 @@ def register(I):
             acc = b_or(acc, b_and(*[chr_eq(hay[i + j], needle[j]) for j in range(m)]))
         return acc
 
+    @reg("<impl str>::replace")
+    def str_replace(I, st, args, info):
+        hay = list(as_str_items(I, args[0], st))
+        pat = args[1]
+        pv = deref_all(I, pat, st)
+        needle = [pv] if is_scalar(pv) else list(as_str_items(I, pv, st))
+        rep_ = list(as_str_items(I, args[2], st))
+        m = len(needle)
+        if m == 0:
+            raise Unsupported("str::replace with an empty pattern")
+        if any(isinstance(x, Seg) for x in needle):
+            raise Unsupported("str::replace with a formatted pattern")
+
+        def match_guard(i):
+            if i + m > len(hay):
+                return False
+            g = True
+            for j in range(m):
+                h = hay[i + j]
+                if isinstance(h, Seg):
+                    return False      # a formatted number never contains the marker characters we can decide
+                g = b_and(g, chr_eq(h, needle[j]))
+                if g is False:
+                    return False
+            return g
+
+        # leftmost, non-overlapping matches; alternatives fork only where a match is undecided
+        alts = []
+
+        def go(i, acc, guard):
+            while i < len(hay):
+                g = match_guard(i)
+                if g is False:
+                    acc = acc + [hay[i]]
+                    i += 1
+                    continue
+                if g is True:
+                    acc = acc + rep_
+                    i += m
+                    continue
+                if I.feasible(st.pc, b_and(guard, g)):
+                    go(i + m, acc + rep_, b_and(guard, g))
+                guard = b_and(guard, b_not(g))
+                if not I.feasible(st.pc, guard):
+                    return
+                acc = acc + [hay[i]]
+                i += 1
+            alts.append((guard, StringV(acc)))
+        go(0, [], True)
+        if len(alts) == 1:
+            return alts[0][1]
+        return Outcomes(alts)
+
     @reg("<impl str>::parse")
     def str_parse(I, st, args, info):
         gens = info.path.generics(-1)
@@ -736,7 +798,7 @@ def register(I):
         """evaluate an iterator with pending adaptors -> ([(st', items)...], [(st_p, Panic)...]).
         Closure calls are threaded through the state; forks inside a closure (several outcomes, conditional
         panics) split the evaluation into several paths."""
-        if isinstance(it, UnorderedIter) and not unordered_ok:
+        if isinstance(it, UnorderedIter) and not unordered_ok and I.hash_order is None:
             raise Unsupported("result depends on HashMap iteration order (consumer is not order-insensitive)")
         paths = [(st, list(it.items))]
         panics = []
@@ -895,7 +957,7 @@ def register(I):
                 break
         if not hits:
             return OPT_NONE
-        if unordered and len(hits) > 1 and not all(same(hits[0], h) for h in hits[1:]):
+        if unordered and len(hits) > 1 and not all(same(hits[0], h) for h in hits[1:]) and I.hash_order is None:
             raise Unsupported("result depends on HashMap iteration order (%s with several matches)" % which)
         return hits[0]
 
@@ -1063,12 +1125,44 @@ def register(I):
     @reg("HashMap::iter")
     def map_iter(I, st, args, info):
         m = deref_all(I, args[0], st)
-        it = IterV([(ValRef(k), ValRef(v)) for k, v in m.entries])
+        ents = list(m.entries)
+        if I.hash_order == "rev":
+            ents.reverse()
+        elif I.hash_order == "rot" and len(ents) > 1:
+            ents = ents[1:] + ents[:1]
+        it = IterV([(ValRef(k), ValRef(v)) for k, v in ents])
         return UnorderedIter(it.items)
 
     @reg("HashMap::len")
     def map_len(I, st, args, info):
         return len(deref_all(I, args[0], st).entries)
+
+    # ----------------------------------------------------------------- process-global state (only C15 cares)
+    def atomic(name, f):
+        def h(I, st, args, info):
+            r = args[0]
+            if isinstance(r, ValRef):
+                raise Unsupported("atomic behind a snapshot reference")
+            cur = I.read_ref(r, st)
+            val = cur.fields[0] if isinstance(cur, Adt) else cur
+            new, ret = f(val, args)
+            I.write_cell(r.key, r.path, Adt("Atomic", None, [new]), st)
+            return ret
+        h.__name__ = "atomic_" + name
+        for ty in ("AtomicU32", "AtomicU64", "AtomicUsize", "AtomicBool", "AtomicI32", "AtomicI64"):
+            R["%s::%s" % (ty, name)] = h
+    atomic("fetch_add", lambda v, a: ((v + a[1]) if not is_sym(v) else v + a[1], v))
+    atomic("fetch_sub", lambda v, a: (v - a[1], v))
+    atomic("load", lambda v, a: (v, v))
+    atomic("store", lambda v, a: (a[1], ()))
+    atomic("swap", lambda v, a: (a[1], v))
+    for ty in ("AtomicU32", "AtomicU64", "AtomicUsize", "AtomicBool", "AtomicI32", "AtomicI64"):
+        R["%s::new" % ty] = (lambda I, st, args, info: Adt("Atomic", None, [args[0]]))
+
+    @reg("process::id", "::id")
+    def process_id(I, st, args, info):
+        I.nondet_reads.append("process id")
+        return z3.BitVec("pid_%d" % len(I.nondet_reads), 32)
 
     # ----------------------------------------------------------------- clock
     @reg("SystemTime::now")
